@@ -541,13 +541,19 @@ def version_facts(mods):
     if len(hits) != 1:
         fail(w, "expected one version test, found %d" % len(hits))
     t = hits[0].test
-    if not (isinstance(t, ast.BoolOp) and isinstance(t.op, ast.And) and len(t.values) == 2
-            and ast.unparse(t.values[0]) == "not ret"):
+    # `not ret and sensorid in range(BROADCAST_ID + 1) and <version test>`: the node id guard is
+    # hand-modelled (Model/Gateway.v node_id_ok, pinned by the fingerprint of is_sensor); only its
+    # exact shape is accepted here, the version test is rendered
+    if not (isinstance(t, ast.BoolOp) and isinstance(t.op, ast.And) and len(t.values) == 3
+            and ast.unparse(t.values[0]) == "not ret"
+            and ast.unparse(t.values[1]) == "sensorid in range(BROADCAST_ID + 1)"
+            and fn.args.args[1].arg == "sensorid"
+            and getattr(mods["mysensors"], "BROADCAST_ID", None) == 255):
         fail(w, t)
     if "I_PRESENTATION" not in ast.unparse(hits[0]):
         fail(w, "guarded block does not request a presentation")
     out.append("Definition is_sensor_test : vtest := %s." %
-               vtest(t.values[1], w, lambda e: ast.unparse(e) == "self.protocol_version"))
+               vtest(t.values[2], w, lambda e: ast.unparse(e) == "self.protocol_version"))
     # Sensor.protocol_version setter
     w = "Sensor.protocol_version.setter"
     prop = sensor.Sensor.__dict__.get("protocol_version")
